@@ -8,8 +8,23 @@ the C code does not either is *monitored*, not proved: the same documents run (a
 ASan+UBSan -O1 build and in the clang MemorySanitizer build with the input in an exact-size heap block, (b) in the -O2 -msse4.2 build
 with the last input byte flush against a PROT_NONE page and the input pages read-only, at every
 start phase mod 16, followed by accessor / equality / hash / lookup scripts on the returned
-tree; outputs of (a), (b) and the model must be identical."""
+tree; outputs of (a), (b) and the model must be identical.
+
+Two further families run in the same three builds (harness command K and the script tokens o<K>= xr xu xq; oracles on the
+real library, the model answers the corresponding plain `R 8` lines):
+* tag handlers that *work* while the read is in flight - every accessor on the operand (strings are materialised while
+  the arena is still being allocated from), arena allocations of assorted sizes written through typed pointers,
+  edn_external_create, optionally hash / equality - under every default-reader mode, with and without an end-of-input
+  value, on complete and truncated documents; the result must be what the plain handlers give, every node of the returned
+  tree and every record the handlers allocate must lie at an address suitable for its type, and what the handlers wrote into
+  their own allocations must still be there afterwards;
+* the external-type table changed under live values: register / re-register / unregister (first, middle, last entry,
+  unknown id, twice) interleaved with equality, hash, lookup, membership, duplicate detection and further reads on
+  external values of several types; besides the sanitizers, the three builds must agree, and values read after a history of
+  table operations must behave exactly like values read under a freshly built table with the same entries."""
 import json
+import re
+import time
 
 from .. import common as C
 from .. import corr as K
@@ -39,10 +54,288 @@ def nasty_docs(rng):
                 b"\"\"\"\n" + b" " * n + b"x", b"\"\"\"\n" + b"y" * n + b"\"\"\"", b"[" + b"1 " * n, b"\\" + b"a" * n, b":" + b"k" * n + b"/" + b"n" * n]
     return out
 
+# ---------------------------------------------------------------------------------------------------------------------
+# handlers at work during the read (harness command K) and registries changed under live values (script tokens)
+# ---------------------------------------------------------------------------------------------------------------------
+BUSY_TAGS = ["id", "id", "my/id", "ext", "ext", "inst", "inst", "foo", "fail", "failq"]
+
+
+def decorate(rng, v, p):
+    """Wrap nodes of a generated value into tags of the preset registry (and one unhandled tag)."""
+    t = v[0]
+    if t in ("vec", "list", "set"):
+        v = (t, [decorate(rng, x, p) for x in v[1]])
+    elif t == "map":
+        v = (t, [(decorate(rng, k, p), decorate(rng, x, p)) for k, x in v[1]])
+    elif t == "tagged":
+        v = (t, v[1], decorate(rng, v[2], p))
+    if rng.random() < p:
+        v = ("tagged", rng.choice(BUSY_TAGS), v)
+    return v
+
+
+def busy_docs(rng, cfg, tier):
+    """Documents whose tags are handled while the reader is still allocating: string operands of every length mod 8
+    (with and without escapes, short and longer than an arena block), operands of every kind, nested handlers, handlers
+    inside sets and map keys, each followed by values of every alignment need; truncated at every offset for some."""
+    out = []
+    rest = b' 17 :after {:k 2.5} 1.5e3 "tail" \\c 12345678901234567890 3.25M sym'
+    for tag in (b"id", b"ext", b"inst", b"my/id", b"nope"):
+        for n in range(0, 34):
+            out.append(b"[#" + tag + b' "' + b"s" * n + b'"' + rest + b"]")
+    for n in range(0, 18):
+        out.append(b'[#id "' + b"s" * n + b'\\n" #ext "' + b"t" * n + b'\\t\\\\"' + rest + b"]")
+        out.append(b'{#id "' + b"k" * n + b'" #inst "' + b"v" * (n + 1) + b'" :z #ext [' + b'"q" ' * n + b"] #ext :k 1.5}")
+        out.append(b'#{#id "' + b"a" * n + b'" #id "' + b"b" * (n + 1) + b'" ' + str(n).encode() + b" 2.5 #inst [\"" + b"c" * n + b"\" 1.0]}")
+        out.append(b"(" + b'#id #ext #inst #my/id "' + b"n" * n + b'" ' + b'#id #id "' + b"m" * n + b'"' + rest + b")")
+        out.append(b'[#id [' + b" ".join(b'"' + b"e" * k + b'"' for k in range(n)) + b"]" + rest + b' #fail "' + b"f" * n + b'" 1]')
+        out.append(b'[#id "' + b"g" * n + b'" #failq "' + b"h" * n + b'" 2.5]')
+    for big in (4090, 16383, 16385, 65537) + ((131073, 262147) if tier == "thorough" else ()):
+        for small in (3, 12):
+            out.append(b'[#id "' + b"a" * big + b'" 1.5 #ext "' + b"b" * small + b'" {:k 2.5} #inst "c\\n' + b"c" * (big // 3) + b'" "' + b"d" * small + b'" 7]')
+    # handlers inside discarded forms, after comments, as map values of namespaced maps, below metadata
+    for n in (0, 3, 8, 13):
+        out.append(b'[#_ #id "' + b"d" * n + b'" #id "' + b"e" * (n + 1) + b'" 1.5 #_ #ext "x" ; c\n #inst "' + b"f" * n + b'" {:k 2.5}]')
+        if cfg in ("clj", "both"):
+            out.append(b'#:ns{:a #id "' + b"a" * n + b'" :b #ext "de" :c 1.5 :d [#inst "' + b"g" * n + b'" 2.5]}')
+            out.append(b'^{:doc #id "' + b"m" * n + b'"} [#ext "' + b"x" * n + b'" ^:k #id [1.5 "' + b"y" * n + b'"] 2.5]')
+    scal = [b"nil", b"true", b"0", b"-9223372036854775808", b"99999999999999999999", b"1.5", b"1e400", b"1.5M", b"7N", b"\\a", b"\\newline", b"sym", b"ns/sym",
+            b":kw", b":ns/kw", b'""', b'"\\u0041"', b"()", b"[]", b"{}", b"#{}", b"##Inf", b"##NaN", b"#foo 1", b"#_ 1 2"]
+    if cfg in ("clj", "both"):
+        scal += [b"1/2", b"0x1F", b"36rZZ", b"99999999999999999999/3", b"^:a [1]", b'^{:a "meta"} [1 "x"]', b'#:ns{:a "v"}', b'"\\101"']
+    if cfg in ("exp", "both"):
+        scal += [b'"""\n  abc\n  def\n  """', b"1_000", b"1_0.5"]
+    for s1 in scal:
+        for tag in (b"id", b"ext", b"inst"):
+            out.append(b"[#" + tag + b" " + s1 + b' "after" 2.5 ' + s1 + b"]")
+    base = []
+    for _ in range(250 if tier == "quick" else 3000):
+        v = decorate(rng, G.gen_value(rng, cfg, depth=rng.choice([1, 2, 3]), width=4, tags=("id", "ext", "inst", "my/id")), rng.choice([0.15, 0.3, 0.5]))
+        if v[0] != "tagged" and rng.random() < 0.5:
+            v = ("tagged", rng.choice(["id", "ext", "inst"]), v)
+        base.append(G.render_doc(rng, v, cfg, rich=rng.random() < 0.5))
+    out += base
+    # truncated at every offset (the handlers have run, then the read fails and the arena goes away)
+    for d in (out[2:3] + out[170:174] + base[:8]) if tier == "quick" else (out[:3] + out[170:176] + base[:100]):
+        if len(d) < 400:
+            out += [d[:k] for k in range(1, len(d))]
+    return [d for d in out if d]
+
+
+def busy_lines(rng, docs):
+    """K lines and the plain `R` lines whose model answer is their expected output."""
+    k, r = [], []
+    for i, d in enumerate(docs):
+        opt = rng.choice([0, 0, 0, 1, 2, 4, 5]) | rng.choice([0, 0, 64])
+        sched = rng.randrange(16)
+        k.append("K %d %s" % (opt | (sched << 8), C.hexs(d)))
+        r.append("R %d %s" % ((opt & 7) | 8, C.hexs(d)))
+    return k, r
+
+
+XD = [b'[#ext "a" #ext "a" #ext "bb" #xt 3 #xt 3 #xt 259 {#xt 5 1 #ext "kkk" 2 :k #xt 44} #{#xt 44 #ext "q"} #xt 300 [#ext "zz" #xt 3]]',
+      b'#{#ext "a" #ext "bb" #xt 3 #xt 259 1 2}',
+      b"#{" + b" ".join(b"#xt %d" % (3 + 256 * 10 ** j) for j in range(1, 15)) + b" " + b" ".join(b'#ext "%s"' % (b"e" * j) for j in range(1, 9)) + b" 1 2}",
+      b'{#xt 3 1 #xt 259 2 #ext "a" 3 #ext "bb" 4}']
+XPATH = {7: ("0.0", "1.0", "0.2", "1.1"), 3: ("0.3", "1.3", "0.5", "1.4"), 44: ("0.8", "1.8", "0.7.0", "0.6.5")}
+XIDS = [7, 3, 44, 5, 9, 4000000000]
+XEH = [1, 2, 11, 12, 21, 22]
+XPROBE = ("e:{a}.0:{b}.0 e:{a}.0:{a}.2 h:{a}.0 h:{a}.3 e:{a}.3:{b}.4 e:{a}.3:{b}.5 h:{a}.5 e:{a}.8:{b}.8 h:{a}.8 e:{a}:{b} h:{a} lk:{a}.6:{b}.6.0 ck:{a}.6:{b}.0 "
+          "sc:{a}.7:{b}.8 sc:{a}.7:{b}.7.1 d:{a} d:{a}.9 h:{a}.7 e:{a}.7:{b}.7 xq:7 xq:3 xq:44 xq:5 xq:9")
+
+
+def x_ops_on(rng, T, n=1):
+    a, b, c, d = XPATH[T]
+    pool = ["e:%s:%s" % (a, b), "e:%s:%s" % (a, c), "h:%s" % a, "h:%s" % b, "h:0", "e:0:1", "d:0", "sc:0.7:%s" % b, "lk:0.6:%s" % b, "ck:0.6:%s" % a,
+            "sc:2:%s" % a, "lk:3:%s" % b, "h:2", "e:0.7:1.7", "e:0.6:1.6", "xq:%d" % T, "t:%s" % a]
+    return [rng.choice(pool) for _ in range(n)]
+
+
+def registry_scripts(rng, tier):
+    """(script, table at its end) pairs: the external-type table changes while trees holding external values are alive."""
+    out = []
+    rd = lambda k, j, o=40: "o%d=%d,%s" % (k, o, C.hexs(XD[j]))
+    head = [rd(0, 0), rd(1, 0), rd(2, 2), rd(3, 3)]
+    primes = lambda T: [["e:%s:%s" % XPATH[T][:2]], ["h:%s" % XPATH[T][0]], ["sc:0.7:%s" % XPATH[T][1]], ["lk:3:%s" % XPATH[T][1]], ["d:0"], ["h:2", "e:2:2"],
+                        ["xr:%d:22" % T], ["xq:%d" % T], [rd(4, 1)], [rd(4, 2)], []]
+    afters = lambda T: [["e:%s:%s" % XPATH[T][:2], "h:%s" % XPATH[T][1]], ["h:%s" % XPATH[T][2], "e:%s:%s" % (XPATH[T][0], XPATH[T][2])], ["d:0", "sc:0.7:%s" % XPATH[T][1]],
+                        ["xr:%d:12" % T, "e:%s:%s" % XPATH[T][:2]], ["xr:9:11", "h:%s" % XPATH[T][0]], [rd(5, 1), rd(6, 2)], ["xu:%d" % T, "h:%s" % XPATH[T][1]], ["lk:3:%s" % XPATH[T][1], "h:0", "e:0:1"]]
+    # unregister the first / middle / last of three entries, after every kind of use, followed by every kind of use
+    for order in ((7, 3, 44), (3, 44, 7), (44, 7, 3)):
+        for T in order[:(3 if tier == "thorough" else 2)]:
+            for pr in primes(T):
+                for af in afters(T):
+                    tab = {}
+                    ops = list(head)
+                    for i, t in enumerate(order):
+                        eh = (11, 12, 21)[i]
+                        ops.append("xr:%d:%d" % (t, eh))
+                        tab[t] = eh
+                    seq = pr + ["xu:%d" % T] + af
+                    ops += seq
+                    for o in seq:
+                        if o.startswith("xr:"):
+                            tab[int(o.split(":")[1])] = int(o.split(":")[2])
+                        elif o.startswith("xu:"):
+                            tab.pop(int(o.split(":")[1]), None)
+                    out.append((ops, tab))
+    # random histories
+    for _ in range(150 if tier == "quick" else 3000):
+        tab = {}
+        ops = [rd(0, 0, rng.choice([40, 104])), rd(1, 0, rng.choice([40, 104])), rd(2, 2), rd(3, 3)]
+        rng.shuffle(ops)
+        for _ in range(rng.randint(3, 14)):
+            r = rng.random()
+            if r < 0.3:
+                t, eh = rng.choice(XIDS), rng.choice(XEH)
+                ops.append("xr:%d:%d" % (t, eh))
+                tab[t] = eh
+            elif r < 0.55:
+                t = rng.choice(XIDS if rng.random() < 0.4 or not tab else sorted(tab))
+                ops.append("xu:%d" % t)
+                tab.pop(t, None)
+            elif r < 0.65:
+                k = rng.choice([4, 5, 6, 0, 1])  # registers 0 and 1 always hold the first document (the paths of the probes)
+                ops.append(rd(k, 0 if k < 2 else rng.choice([0, 1, 2, 3]), rng.choice([40, 104])))
+            else:
+                ops += x_ops_on(rng, rng.choice([7, 3, 44]), rng.randint(1, 3))
+        out.append((ops, tab))
+    return out
+
+
+def registry_lines(rng, tier):
+    """For every history: the script followed by probes on freshly read values, and the same probes under a table built
+    directly with the entries the history leaves behind (same order of outputs at the end)."""
+    fresh = "o8=40,%s o9=40,%s o10=40,%s o11=40,%s o12=40,%s " % tuple(C.hexs(XD[j]) for j in (0, 0, 1, 2, 3)) + XPROBE.format(a="8", b="9") + " h:10 h:11 h:12 t:10 sc:11:8.3 lk:12:9.5"
+    nfresh = len(fresh.split(" "))
+    lines, pairs = [], []
+    for ops, tab in registry_scripts(rng, tier):
+        a = len(lines)
+        lines.append("Q " + " ".join(ops) + " " + fresh)
+        lines.append("Q " + " ".join("xr:%d:%d" % (t, eh) for t, eh in sorted(tab.items())) + (" " if tab else "") + fresh)
+        pairs.append((a, a + 1))
+    return lines, pairs, nfresh
+
+
+def report_crashes(rep, name, pl, cfg, lines, crashes, env=None):
+    """One finding per build and family; a line that also crashes when it is the only line of a fresh process is preferred
+    (state left behind by an earlier line - a registry entry, a cache - can make a later, innocent line crash)."""
+    if not crashes:
+        return False
+    mode = name.split("/")[0]
+    exe = C.harness("unity", cfg, mode)
+    pick = None
+    for idx, rc, err in crashes[:6]:
+        r = C.run_lines(exe, ["P %d" % pl, lines[idx]], env=env)
+        if r.returncode != 0 or r.crashed_at is not None:
+            pick = (idx, r.returncode, r.stderr or err, True)
+            break
+    if pick is None:
+        pick = crashes[0] + (False,)
+    idx, rc, err, alone = pick
+    kind = "sanitizer" if ("Sanitizer" in err or "runtime error" in err) else "signal"
+    what = err.strip().split("\n")
+    head = next((l for l in what if "ERROR" in l or "runtime error" in l), what[0] if what else "")
+    rp = {"kind": "line", "config": cfg, "mode": mode, "placement": pl, "line": lines[idx], "stderr": err[-3000:], "reproduces_alone": alone, "crashing_lines": len(crashes)}
+    if not alone:
+        rp["note"] = "crashed as part of a batch of lines in one process and not when run alone: an earlier line of the family left state behind"
+    rep.finding("%s/%s" % (kind, name), "%s build: %s (exit %s) on %s" % (mode, head[:200], rc, lines[idx][:120]), rp)
+    return True
+
+
+BUILDS3 = (("san", 0, None), ("o2", 1, None), ("msan", 0, {"MSAN_OPTIONS": "halt_on_error=1"}))
+
+
+def handlers_at_work(rep, rng, cfg, tier):
+    found = False
+    docs = busy_docs(rng, cfg, tier)
+    klines, rlines = busy_lines(rng, docs)
+    model, _ = K.run_model(cfg, rlines)
+    ncalls = nblocks = 0
+    for mode, pl, env in BUILDS3:
+        kw = {"env": env} if env else {}
+        outs, crashes = K.run_impl(cfg, klines, mode=mode, prefix=["P %d" % pl], **kw)
+        rep.count("handlers-at-work/%s/%s" % (mode, cfg), len(klines))
+        found |= report_crashes(rep, mode + "/handlers-at-work", pl, cfg, klines, crashes, env)
+        broke = False
+        for i, o in enumerate(outs):
+            if o is None or o == "timeout":
+                continue
+            rp = {"kind": "line", "config": cfg, "mode": mode, "placement": pl, "line": klines[i], "observed": o[-600:], "document": repr(docs[i][:200])}
+            body, _, tail = o.partition(" ;busy ")
+            if "!" in tail:
+                found = True
+                rep.finding("handler-at-work/" + tail[tail.index("!") + 1:].split("=")[0].split(" ")[0].lower(),
+                            "a tag handler that uses the accessors and the arena during the read: %s (%s build) on %r" % (tail[tail.index("!"):], mode, docs[i][:80]), rp)
+            if "INPUT-MODIFIED" in body:
+                found = True
+                rep.finding("input-modified", "the input buffer was written to", rp)
+                body = body.replace(" INPUT-MODIFIED", "")
+            if mode == "san":
+                m = re.search(r"calls=(\d+) blocks=(\d+)", tail)
+                if m:
+                    ncalls += int(m.group(1))
+                    nblocks += int(m.group(2))
+            if model[i] is not None and body != model[i] and not broke:
+                broke = True
+                found = True
+                rep.finding("handler-at-work/result-differs", "the read gives another result when its tag handlers call accessors on their operand and allocate from the arena "
+                            "(%s build): %r instead of %r on %r" % (mode, body[:160], model[i][:160], docs[i][:80]), dict(rp, expected=model[i][-600:]))
+    rep.count("handlers-at-work/handler-calls/" + cfg, ncalls)
+    rep.count("handlers-at-work/handler-allocations/" + cfg, nblocks)
+    # the accessor / equality / hash / lookup scripts on trees whose tags were handled that way: sanitizers, and the builds agree
+    sdocs = [d for d in docs if len(d) < 3000][:60] + rng.sample(docs, 60)
+    scripts = ["Q o0=%d,%s o1=%d,%s %s" % (rng.choice([40, 104]), C.hexs(d), rng.choice([40, 42, 104]), C.hexs(d), SCRIPT_TAIL) for d in sdocs]
+    f, _ = builds_agree(rep, "scripts-after-handlers", cfg, scripts)
+    found |= f
+    return found, len(klines) * 3 + len(scripts) * 3, klines + scripts
+
+
+def builds_agree(rep, what, cfg, lines):
+    found = False
+    res = {}
+    for mode, pl, env in BUILDS3:
+        kw = {"env": env} if env else {}
+        outs, crashes = K.run_impl(cfg, lines, mode=mode, prefix=["P %d" % pl], **kw)
+        rep.count("%s/%s/%s" % (what, mode, cfg), len(lines))
+        found |= report_crashes(rep, mode + "/" + what, pl, cfg, lines, crashes, env)
+        res[mode] = outs
+    for i, l in enumerate(lines):
+        got = {m: res[m][i] for m in res if res[m][i] is not None}
+        if any("!" in (o or "") or "NOTERM" in (o or "") or "UNSTABLE" in (o or "") for o in got.values()):
+            found = True
+            m = next(m for m, o in got.items() if "!" in o or "NOTERM" in o or "UNSTABLE" in o)
+            rep.finding(what + "/anomaly", "%s build reports an anomaly: %s" % (m, got[m][:300]), {"kind": "line", "config": cfg, "mode": m, "placement": 0, "line": l, "observed": got[m][-800:]})
+        if len(set(got.values())) > 1:
+            found = True
+            rep.finding(what + "/build-dependent", "the sanitised, the -O2 and the MemorySanitizer build give different answers: %r" % ({m: o[:120] for m, o in got.items()},),
+                        {"kind": "line", "config": cfg, "mode": "san", "placement": 0, "line": l, "observed": {m: o[-600:] for m, o in got.items()}})
+    return found, res
+
+
+def tables_under_live_values(rep, rng, cfg, tier):
+    lines, pairs, nfresh = registry_lines(rng, tier)
+    found, res = builds_agree(rep, "external-types-under-live-values", cfg, lines)
+    rep.count("external-types-under-live-values/histories/" + cfg, len(pairs))
+    for mode, outs in res.items():
+        for a, b in pairs:
+            if outs[a] is None or outs[b] is None:
+                continue
+            ta, tb = outs[a].split("\t")[-nfresh:], outs[b].split("\t")[-nfresh:]
+            if ta != tb:
+                found = True
+                k = next(i for i in range(min(len(ta), len(tb))) if ta[i] != tb[i]) if len(ta) == len(tb) else -1
+                rep.finding("external-types/history-dependent", "values read after a history of register / unregister calls behave differently from values read under a fresh table "
+                            "with the same entries (%s build, probe %d: %r vs %r)" % (mode, k, ta[k][:80] if k >= 0 else len(ta), tb[k][:80] if k >= 0 else len(tb)),
+                            {"kind": "line", "config": cfg, "mode": mode, "placement": 0, "line": lines[a], "fresh_table_line": lines[b], "observed": ta, "expected": tb})
+                break
+    return found, len(lines) * 3, lines
+
 
 def run(tier):
     rep = C.Report(PID, tier, "proof")
     rng = C.rng(PID)
+    rng2 = C.rng(PID + "/handlers-and-tables")  # a stream of its own: the documents of the older families stay what they were
     lean = U.lean_part(rep, PID)
     found = False
     ndoc = 400 if tier == "quick" else 5000
@@ -117,6 +410,12 @@ def run(tier):
                     rep.broken_obligation("correspondence/" + name, "model %r vs code %r on %s" % (model[i][:200], o[:200], allv[i][:200]), False)
                     break
         rep.note_cases(len(allv) * len(runs), set(C.sha(l)[:16] for l in allv), sample={"line": allv[0][:200], "out": (runs["san/heap"][0][0] or "")[:200]})
+        for family in (handlers_at_work, tables_under_live_values):
+            t0 = time.time()
+            f, n, ls = family(rep, rng2, cfg, tier)
+            found |= bool(f)
+            rep.note_cases(n, set(C.sha(l)[:16] for l in ls))
+            rep.coverage["wall_s/" + family.__name__] = round(rep.coverage.get("wall_s/" + family.__name__, 0) + time.time() - t0, 1)
     U.finish_proof(rep, lean, found)
 
 
